@@ -17,6 +17,7 @@
 #include <xmmintrin.h>
 
 #include "atomic_wrapper.h"
+#include "verif_hook.h"
 
 namespace yakushima {
 
@@ -203,6 +204,7 @@ public:
             if (body_.compare_exchange_weak(expected, desired,
                                             std::memory_order_acq_rel,
                                             std::memory_order_acquire)) {
+                YK_VP(k_ver_cas, this, 4, 0);
                 break;
             }
         }
@@ -217,6 +219,7 @@ public:
             if (body_.compare_exchange_weak(expected, desired,
                                             std::memory_order_acq_rel,
                                             std::memory_order_acquire)) {
+                YK_VP(k_ver_cas, this, 3, 0);
                 break;
             }
         }
@@ -231,6 +234,7 @@ public:
             if (body_.compare_exchange_weak(expected, desired,
                                             std::memory_order_acq_rel,
                                             std::memory_order_acquire)) {
+                YK_VP(k_ver_cas, this, 3, 0);
                 break;
             }
         }
@@ -245,6 +249,7 @@ public:
             if (body_.compare_exchange_weak(expected, desired,
                                             std::memory_order_acq_rel,
                                             std::memory_order_acquire)) {
+                YK_VP(k_ver_cas, this, 3, 0);
                 break;
             }
         }
@@ -259,6 +264,7 @@ public:
             if (body_.compare_exchange_weak(expected, desired,
                                             std::memory_order_acq_rel,
                                             std::memory_order_acquire)) {
+                YK_VP(k_ver_cas, this, 3, 0);
                 break;
             }
         }
@@ -273,6 +279,7 @@ public:
             if (body_.compare_exchange_weak(expected, desired,
                                             std::memory_order_acq_rel,
                                             std::memory_order_acquire)) {
+                YK_VP(k_ver_cas, this, 3, 0);
                 break;
             }
         }
@@ -294,6 +301,7 @@ public:
             for (size_t i = 1;; ++i) {
                 expected = get_body();
                 if (expected.get_locked()) {
+                    YK_VP(k_spin, this, 1, 0);
                     if (i >= 10) { break; }
                     _mm_pause();
                     continue;
@@ -303,6 +311,7 @@ public:
                 if (body_.compare_exchange_weak(expected, desired,
                                                 std::memory_order_acq_rel,
                                                 std::memory_order_acquire)) {
+                    YK_VP(k_ver_cas, this, 1, 0);
                     return;
                 }
             }
@@ -311,6 +320,7 @@ public:
     }
 
     [[nodiscard]] node_version64_body get_body() const {
+        YK_VP(k_ver_load, this, 0, 0);
         return body_.load(std::memory_order_acquire);
     }
 
@@ -335,6 +345,7 @@ public:
                 !sv.get_splitting()) {
                 return sv;
             }
+            YK_VP(k_spin, this, 2, 0);
             _mm_pause();
         }
     }
@@ -355,6 +366,7 @@ public:
 
     void set_body(const node_version64_body newv) {
         body_.store(newv, std::memory_order_release);
+        YK_VP(k_ver_store, this, 0, 0);
     }
 
     /**
@@ -378,6 +390,7 @@ public:
             if (body_.compare_exchange_weak(expected, desired,
                                             std::memory_order_acq_rel,
                                             std::memory_order_acquire)) {
+                YK_VP(k_ver_cas, this, 2, 0);
                 break;
             }
         }
